@@ -228,7 +228,7 @@ def run(ctx):
     ctx.assume('the smallest knot is requested only in the table\'s own unit (a unit round trip can land 1 ulp below it and be legitimately refused)',
                'interpolate_variable clamps to 0.999*a_max by design: anything between the interpolants at 0.999*a_max and a_max is accepted',
                'rtol 1e-11 (1e-9 for the composite SED)')
-    ctx.require_events('sed:same-request-array-reused-across-tables', 'convolved:same-request-quantity-reused-across-tables', 'ConvolvedFluxes.interpolate:post', 'SED.interpolate:post', 'SED.interpolate_variable:post', 'variable:node-checked',
+    ctx.require_events('convolved:result-at-tabulated-radii-modified', 'sed:same-request-array-reused-across-tables', 'convolved:same-request-quantity-reused-across-tables', 'ConvolvedFluxes.interpolate:post', 'SED.interpolate:post', 'SED.interpolate_variable:post', 'variable:node-checked',
                        'refused:convolved', 'refused:sed', 'refused:variable', 'convolved:same-table-again', 'convolved:table-changed-between-calls', 'convolved:table-without-errors', 'sed:apertures-replaced-between-calls', 'sed:fluxes-replaced-between-calls', 'convolved:apertures-replaced-between-calls', 'convolved:request-dtypes', 'convolved:flux-scaled-with-augmented-assignment')
     ctx.require_regimes('sed:request-as-integers', 'sed:request-as-float32', 'single-aperture', 'convolved:no-apertures', 'convolved:flux-unit-not-mJy', 'convolved:error-unit-differs', 'sed:desc-wav', 'sed:flux-unit-not-mJy', 'unit:pc', 'unit:cm', 'sed-apertures:cm', 'above-table', 'on-knot')
     n_it = 250 if ctx.quick else 10000
@@ -296,6 +296,16 @@ def run(ctx):
                 for un2 in rng.permutation(['au', 'pc', 'cm']):       # ... and in other length units
                     cf.interpolate((requests(rng, tab_au, 3) * (1 + 1e-9) * u.au).to(u.Unit(str(un2))))
                 cf.interpolate((req * (1 + 1e-9) * u.au).to(u.Unit(runit)))
+                if not no_ap:
+                    # a result obtained at exactly the tabulated radii is then worked with (scaled to a distance, re-ordered, given
+                    # another wavelength - what the fitter does with such results): the table it came from must not follow
+                    on_tab = cf.interpolate(cf.apertures.copy())
+                    on_tab.flux = on_tab.flux * 3.0
+                    if on_tab.error is not None:
+                        on_tab.error = on_tab.error * 3.0
+                        on_tab.sort_to_match(np.array(list(on_tab.model_names)[::-1]))
+                    on_tab.central_wavelength = on_tab.central_wavelength * 2.0
+                    ctx.event('convolved:result-at-tabulated-radii-modified')
                 again = cf.interpolate(rq)
                 if not (O.close(probe.arr(again.flux), first[0], 1e-12) and O.close(probe.arr(again.error) if again.error is not None else probe.arr(again.flux), first[1], 1e-12)):
                     ctx.violation('convolved:same-request-other-answer', 'the same table gives another answer to the same request after other requests were served', wit)
